@@ -90,6 +90,22 @@ Theorem C09_window_indices : forall b a s e f, Inv b a ->
   window_idx b s e (Some f) = RList (spec_window_idx (cap b) a s e f).
 Proof. exact window_idx_inv. Qed.
 
+(* fill_value spelled out: for EVERY fill value v (NaN, 0, 0.0, -0.0, 1, negative, huge: v ranges over
+   all cells) and every query range, slots covered by a sample read their sample, all other slots of
+   the range read v -- by datetime and by index, ring buffer and MovingWindow.window alike *)
+Theorem C09_window_fill_value : forall p al b a s e (v : cell), Inv b a ->
+  window_ts p al b s e (Some v)
+  = RList (map (fun j => match s_map a j with Some x => Some x | None => v end)
+               (spec_cover (cap b) a (norm_slot p al s) (norm_slot p al e))).
+Proof. exact window_ts_fill. Qed.
+
+Theorem C09_window_fill_value_indices : forall b a s e (v : cell) o, Inv b a -> spec_oldest (cap b) a = Some o ->
+  window_idx b s e (Some v)
+  = RList (map (fun j => match s_map a j with Some x => Some x | None => v end)
+               (spec_cover (cap b) a (o + slice_adj (spec_covered (cap b) a) s 0)
+                                     (o + slice_adj (spec_covered (cap b) a) e (spec_covered (cap b) a)))).
+Proof. exact window_idx_fill. Qed.
+
 (* MovingWindow.at(i) / mw[i] and MovingWindow.at(datetime) / mw[datetime] *)
 Theorem C09_at_index : forall b a i, Inv b a -> at_idx b i = spec_at_idx (cap b) a i.
 Proof. exact at_idx_inv. Qed.
@@ -192,6 +208,8 @@ Print Assumptions C09_gaps.
 Print Assumptions C09_counts.
 Print Assumptions C09_window_datetimes.
 Print Assumptions C09_window_indices.
+Print Assumptions C09_window_fill_value.
+Print Assumptions C09_window_fill_value_indices.
 Print Assumptions C09_at_index.
 Print Assumptions C09_at_datetime.
 Print Assumptions C09_only_window_slots.
